@@ -86,6 +86,15 @@ func runProperty(p *Program, s *Specs, prop string, cfg SolveConfig) *CheckResul
 		ex := NewExecutor(p, s)
 		ex.VerifyUnit(k, s.Funcs[k])
 		u := &unitResult{key: k, kind: "func", errs: ex.Errs, paths: ex.pathCount}
+		if ex.anchorLost {
+			// whatever else this unit could not do (a loop without invariant in the helper its loop moved to, ...)
+			// happened while following a contract that no longer fits: it is part of the same lost anchor
+			for i, e := range u.errs {
+				if !strings.HasPrefix(e, "anchor-missing") {
+					u.errs[i] = "anchor-missing " + k + ": (after the lost anchor) " + e
+				}
+			}
+		}
 		for _, o := range ex.Obls {
 			if keep(o) {
 				if ex.anchorLost && (!o.Structural || !o.StructOK) {
